@@ -43,7 +43,58 @@ XdecClause(e) ==
   ELSE IF NormMsg(e.obs) # want THEN <<"decoded_value", Diff(NormMsg(e.obs), want)>>
   ELSE <<"ok", "">>
 
+(* ---- evo: schema evolution.  e.val of the newer type e.ty was serialised (e.b); an older reader e.oty parsed it
+        (e.obs_old), re-serialised it (e.b_old); the newer type parsed that (e.obs_new); the reference too (e.obs_ref) ---- *)
+EvoClause(e) ==
+  IF e.res # "ok" THEN <<"raises_" \o e.res, "">>
+  ELSE LET dn == SpecDecode(Idx, e.ty, e.b)
+           dold == SpecDecode(Idx, e.oty, e.b)
+           dre == SpecDecode(Idx, e.oty, e.b_old)
+           want == NormMsg(e.val) IN
+    IF ~dn.ok \/ ~dold.ok THEN <<"wire_malformed", "">>
+    ELSE IF NormMsg(dn.val) # want THEN <<"wire_value", Diff(NormMsg(dn.val), want)>>
+    ELSE IF NormMsg(e.obs_old) # NormMsg(dold.val) THEN <<"old_reader_known_fields", Diff(NormMsg(e.obs_old), NormMsg(dold.val))>>
+    ELSE IF ~dre.ok THEN <<"reemission_malformed_" \o dre.err, "">>
+    ELSE IF dre.unk # dold.unk THEN <<"unknown_fields_not_reemitted_verbatim", <<dre.unk, dold.unk>> >>
+    ELSE IF NormMsg(dre.val) # NormMsg(dold.val) THEN <<"reemission_known_fields", Diff(NormMsg(dre.val), NormMsg(dold.val))>>
+    ELSE IF NormMsg(e.obs_new) # want THEN <<"new_reader_after_old_writer", Diff(NormMsg(e.obs_new), want)>>
+    ELSE IF NormMsg(e.obs_ref) # want THEN <<"reference_reads_reemission", Diff(NormMsg(e.obs_ref), want)>>
+    ELSE <<"ok", "">>
+
+(* ---- unk: a LegalEnc encoding e.b of e.val with interleaved unknown fields (raw bytes e.unk, arrival order):
+        betterproto's observation, and its re-encoding e.b2 ---- *)
+UnkClause(e) ==
+  LET want == NormMsg(e.val) IN
+  IF e.res # "ok" THEN <<"raises_" \o e.res, "">>
+  ELSE IF NormMsg(e.obs) # want THEN <<"known_fields_disturbed", Diff(NormMsg(e.obs), want)>>
+  ELSE LET d2 == SpecDecode(Idx, e.ty, e.b2) IN
+       IF ~d2.ok THEN <<"reemission_malformed_" \o d2.err, "">>
+       ELSE IF d2.unk # e.unk THEN <<"unknown_fields_not_reemitted_verbatim", <<d2.unk, e.unk>> >>
+       ELSE IF NormMsg(d2.val) # want THEN <<"reemission_known_fields", Diff(NormMsg(d2.val), want)>>
+       ELSE <<"ok", "">>
+
+(* ---- mal: arbitrary bytes e.b given to the decoder of type e.ty.  e.res: "ok" | "raise" | "hang";
+        when ok: e.typed (every field holds a value of its declared type, e.obs readable), e.reenc ("ok" or not), e.b2 ---- *)
+MustReject == {"truncated_tag", "truncated_varint", "truncated_fixed64", "truncated_fixed32", "truncated_length",
+               "truncated_payload", "bad_wiretype", "field_zero"}
+MalClause(e) ==
+  LET d == SpecDecode(Idx, e.ty, e.b) IN
+  IF e.res = "hang" THEN <<"does_not_terminate", "">>
+  ELSE IF e.res = "raise" THEN <<"ok", "">>                         \* rejecting is always allowed
+  ELSE IF ~e.typed THEN <<"ill_typed_field_value", e.note>>
+  ELSE IF e.reenc # "ok" THEN <<"cannot_be_encoded_again", e.reenc>>
+  ELSE IF ~d.ok THEN (IF d.err \in MustReject THEN <<"accepted_" \o d.err, "">> ELSE <<"ok", "">>)
+  ELSE IF d.merged THEN <<"ok", "">>
+  ELSE IF NormMsg(e.obs) # NormMsg(d.val) THEN <<"known_field_altered_or_misdecoded", Diff(NormMsg(e.obs), NormMsg(d.val))>>
+  ELSE LET d2 == SpecDecode(Idx, e.ty, e.b2) IN
+       IF ~d2.ok THEN <<"reemission_malformed_" \o d2.err, "">>
+       ELSE IF d2.unk # d.unk THEN <<"mismatched_or_unknown_occurrence_not_kept", <<d2.unk, d.unk>> >>
+       ELSE <<"ok", "">>
+
 Clause(e) == CASE e.op = "rt" -> RtClause(e)
+               [] e.op = "mal" -> MalClause(e)
+               [] e.op = "evo" -> EvoClause(e)
+               [] e.op = "unk" -> UnkClause(e)
                [] e.op = "xdec" -> XdecClause(e)
                [] e.op = "len" -> LenClause(e)
 
